@@ -139,13 +139,12 @@ func runVF11(p *Prog, r *RuleRun) {
 		r.Unknown("anchor", "?", "unresolved anchors")
 		return
 	}
-	isCRC := func(v ssa.Value) bool {
-		c, ok := v.(*ssa.Call)
-		if !ok {
-			return false
-		}
-		n := eventName(c)
-		return n == "crc32.Checksum" || n == "crc32.Update"
+	var isCRC func(v ssa.Value) bool
+	isCRC = func(v ssa.Value) bool {
+		return derivesFromCallDeep(p, v, func(c *ssa.Call) bool {
+			n := eventName(c)
+			return n == "crc32.Checksum" || n == "crc32.Update"
+		}, 0)
 	}
 	nCmp := 0
 	spec := &OrdSpec{Name: "recovery-crc",
@@ -169,8 +168,8 @@ func runVF11(p *Prog, r *RuleRun) {
 			default:
 				return
 			}
-			if _, isConst := other.(*ssa.Const); isConst {
-				return
+			if _, isConst := other.(*ssa.Const); isConst || isCRC(other) {
+				return // not a comparison of the computed CRC with a stored one
 			}
 			nCmp++
 			if (bo.Op == token.EQL) == truth {
@@ -212,6 +211,34 @@ func runVF11(p *Prog, r *RuleRun) {
 	} else {
 		r.OK(funcDisplay(root)+":crc-comparison", p.Position(root.Pos()), "recovery compares crc32 over read-back bytes with a stored value")
 	}
+}
+
+// derivesFromCallDeep is derivesFromCall that also looks through the results of production helper functions.
+func derivesFromCallDeep(p *Prog, v ssa.Value, pred func(c *ssa.Call) bool, depth int) bool {
+	if depth > 3 {
+		return false
+	}
+	return derivesFromCall(v, func(c *ssa.Call) bool {
+		if pred(c) {
+			return true
+		}
+		callee := c.Call.StaticCallee()
+		if callee == nil || !p.IsProdFunc(callee) || callee.Blocks == nil {
+			return false
+		}
+		for _, b := range callee.Blocks {
+			for _, ins := range b.Instrs {
+				if ret, ok := ins.(*ssa.Return); ok {
+					for _, res := range ret.Results {
+						if derivesFromCallDeep(p, res, pred, depth+1) {
+							return true
+						}
+					}
+				}
+			}
+		}
+		return false
+	})
 }
 
 // ---------------------------------------------------------------- VF-13
